@@ -64,8 +64,7 @@ def cases(draw, tier):
                         for off, v in record['wl']]
         record['j'] = (record['thr_units'] / 8.0) * 3600.0 / new_dt
         record['dt'] = new_dt
-        record['t0'] = gen_records.T0_BASE + draw(
-            st.integers(-2000, 200000)) * new_dt
+        record['t0'] = gen_records.draw_t0(draw, new_dt)
     else:
         record = draw(gen_truth.truth_records(
             noise=(kind == 'truth-noisy'), dts=dts, min_storms=3,
